@@ -31,6 +31,26 @@ pub fn leak(s: &str) -> &'static str {
     })
 }
 
+/// Help given as a `Doc` built with the Doc API: `{{doc:X}}` in the text becomes a nested
+/// document (a literal `X`) between the surrounding text
+pub fn help_doc(s: &str) -> Doc {
+    let mut d = Doc::default();
+    let mut rest = s;
+    while let Some(i) = rest.find("{{doc:") {
+        let j = match rest[i..].find("}}") {
+            Some(j) => i + j,
+            None => break,
+        };
+        d.text(&rest[..i]);
+        let mut n = Doc::default();
+        n.literal(&rest[i + 6..j]);
+        d.doc(&n);
+        rest = &rest[j + 2..];
+    }
+    d.text(rest);
+    d
+}
+
 fn named(n: &Names, help: &Option<String>) -> NamedArg {
     let mut res: Option<NamedArg> = None;
     for c in &n.shorts {
@@ -55,7 +75,11 @@ fn named(n: &Names, help: &Option<String>) -> NamedArg {
     }
     let mut res = res.expect("item without any name");
     if let Some(h) = help {
-        res = res.help(h.as_str());
+        res = if h.contains("{{doc:") {
+            res.help(help_doc(h))
+        } else {
+            res.help(h.as_str())
+        };
     }
     res
 }
@@ -113,7 +137,11 @@ fn build_item(i: &Item) -> P {
                 ($t:ty, $f:expr) => {{
                     let mut a = positional::<$t>(mv);
                     if let Some(h) = &i.help {
-                        a = a.help(h.as_str());
+                        a = if h.contains("{{doc:") {
+                            a.help(help_doc(h))
+                        } else {
+                            a.help(h.as_str())
+                        };
                     }
                     match strict {
                         Strict::Any => {}
